@@ -329,7 +329,7 @@ def run_all(scratch, harnesses, seed=0, max_parallel=None, mem_budget_gb=48, log
         parts.setdefault((h.crate, h.cls, tuple(h.kani_args or [])), []).append(h)
     ncpu = os.cpu_count() or 8
     if max_parallel is None:
-        max_parallel = max(1, min(8, ncpu // 2))
+        max_parallel = max(1, min(12, ncpu - 4))
     total_est = sum(h.est for h in hs) or 1
     jobs = []
     for (crate, cls, _ka), lst in parts.items():
@@ -349,7 +349,9 @@ def run_all(scratch, harnesses, seed=0, max_parallel=None, mem_budget_gb=48, log
     running = [0]
 
     def worker(idx, crate, cls, g):
-        need = max(max(h.mem for h in g), 8)
+        # `mem` is the hard cap (RLIMIT_AS) of a harness; what it is EXPECTED to use on the unchanged tree is far
+        # less for the small ones (measured 0.5-3 GB), and scheduling by the cap left most cores idle
+        need = max(max((h.mem if h.mem > 16 else max(4, h.mem // 3)) for h in g), 4)
         with cond:
             while running[0] >= max_parallel or (sem_mem[0] < need and running[0] > 0):
                 cond.wait()
